@@ -47,6 +47,17 @@ def construct(delivery: dict, keep: bool = False):
     for f in delivery["files"]:
         n = f["name"]
         names.append(n if fl == "str" else pathlib.Path(n) if fl == "Path" else PathLikeName(n))
+    solo = delivery.get("solo_first")
+    if solo is not None and not delivery.get("fault"):
+        # earlier in the same process the caller read one of these files on its own (whatever that gave:
+        # a part of a document need not parse); the files have not changed since
+        try:
+            with warnings.catch_warnings():
+                warnings.simplefilter("ignore")
+                DecFileParser(names[solo]).parse()
+        except Exception:  # noqa: BLE001
+            pass
+        _fs.stats["solo_reads_before_delivery"] = _fs.stats.get("solo_reads_before_delivery", 0) + 1
     return DecFileParser(*names)
 
 
